@@ -142,6 +142,12 @@ def slot_of(scripts, verb):
 
 def work(item):
     scripts = _load()
+    if os.environ.get("VERIF_STACKS"):     # debugging aid: kill -USR1 <worker> dumps its stacks
+        import faulthandler, signal
+        faulthandler.register(signal.SIGUSR1, all_threads=True,
+                              file=open(os.path.join(os.environ["VERIF_STACKS"], "stack.%d" % os.getpid()), "a"))
+        with open(os.path.join(os.environ["VERIF_STACKS"], "item.%d" % os.getpid()), "w") as f:
+            f.write(repr(item))
     J = Judge(scripts)
     kind = item[0]
     if kind in ("bare", "mut", "pre", "pre2"):
